@@ -318,6 +318,7 @@ struct Config {
     int resolver = 0;        // 0 none, 1 vfs-returning resolver, 2 returns null (logging)
     int throwAt = 0;         // throw from the k-th handler callback (1-based), 0 = never
     int bufSize = 0, lowWater = 0;
+    int lsFilter = 0;        // DOMLS only: 0 none, 1 accept-all, 2 startElement REJECT 'c' / SKIP 'i', 3 acceptNode REJECT 'c' / SKIP 'i' / REJECT comments
     std::string str() const {
         char b[256];
         snprintf(b, sizeof b, "%s/%s/val%d%s%s%s%s%s%s%s sec%d", ApiName[api], ScnName[scanner], val, ns ? "/ns" : "", schema ? "/schema" : "",
@@ -582,6 +583,24 @@ template <class P> inline void config_common(P& p, const Config& c) {
     if (c.lowWater) p.setLowWaterMark(c.lowWater);
 }
 
+struct LsFilter : public DOMLSParserFilter {
+    int mode = 1;
+    static bool is(const DOMNode* n, char c) { const XMLCh* nm = n->getNodeName(); return nm && nm[0] == (XMLCh)c && nm[1] == 0; }
+    FilterAction acceptNode(DOMNode* n) override {
+        if (mode == 3) {
+            if (n->getNodeType() == DOMNode::ELEMENT_NODE && is(n, 'c')) return FILTER_REJECT;
+            if (n->getNodeType() == DOMNode::ELEMENT_NODE && is(n, 'i')) return FILTER_SKIP;
+            if (n->getNodeType() == DOMNode::COMMENT_NODE) return FILTER_REJECT;
+        }
+        return FILTER_ACCEPT;
+    }
+    FilterAction startElement(DOMElement* n) override {
+        if (mode == 2) { if (is(n, 'c')) return FILTER_REJECT; if (is(n, 'i')) return FILTER_SKIP; }
+        return FILTER_ACCEPT;
+    }
+    DOMNodeFilter::ShowType getWhatToShow() const override { return DOMNodeFilter::SHOW_ALL; }
+};
+
 struct ParseSession {  // optional external state (security manager, resolver) owned by caller
     SecurityManager sec;
     VfsResolver res;
@@ -684,6 +703,8 @@ inline ParseResult parse_xerces(const Config& c, const ParseIO& io, ParseSession
             dc->setParameter(XMLUni::fgDOMErrorHandler, &eh);
             if (c.secLimit >= 0) dc->setParameter(XMLUni::fgXercesSecurityManager, &sess->sec);
             if (c.resolver) dc->setParameter(XMLUni::fgDOMResourceResolver, (DOMLSResourceResolver*)&sess->res);
+            LsFilter filt; filt.mode = c.lsFilter;
+            if (c.lsFilter) p->setFilter(&filt);
             std::unique_ptr<InputSource> src(make_source(io));
             Wrapper4InputSource w(src.release(), true);
             DOMDocument* doc = p->parse(&w);
